@@ -432,6 +432,7 @@ fn main() {
             println!("sites={} distinct={} by_origin={:?}", c.sites, c.inputs.len(), c.by_origin);
             println!("template idents (type-like): {:?}", c.template_idents.0);
             println!("template idents (value-like): {:?}", c.template_idents.1);
+            println!("parameter-like words: {:?}", corpus::param_words(Path::new(&a.get("repo", "/repo"))));
             if a.map.contains_key("dump") {
                 for i in &c.inputs {
                     println!("// {} [{}]\n{}\n", i.origin, i.name, i.text);
@@ -443,6 +444,13 @@ fn main() {
             std::panic::set_hook(Box::new(|_| {}));
             let _ = corpus::harvest(Path::new(&a.get("repo", "/repo")));
             let mut rng = prng::Rng::new(a.u64("seed", 1));
+            for k in 0..a.u64("probes", 0) {
+                let t = gen::param_probe(&mut rng, &format!("P{k}"));
+                println!("{t}");
+                if a.map.contains_key("expand") {
+                    println!("// => {}\n", host::expand_once(&t));
+                }
+            }
             for k in 0..a.u64("n", 5) {
                 let opts = gen::GenOpts { error_pct: a.u64("error-pct", 15), into_heavy: rng.chance(3, 10) };
                 let t = gen::generate(&mut rng, &format!("G{k}"), &opts);
